@@ -103,7 +103,8 @@ def root_cause(sig: list, actuals: list, msg: str) -> str:
     kind = re.sub(r"'[^']*'", "NAME", msg)
     kind = re.sub(r"\b\d+\b", "N", kind)
     kind = re.sub(r"^.*?f\(\) ", "", kind)
-    kind = re.sub(r"\barguments?\b", "argument(s)", kind).replace(" was given", " were given")
+    if "positional" in kind:  # "takes N positional argument(s) but N was/were given": one class for singular and plural
+        kind = re.sub(r"\barguments?\b", "argument(s)", kind).replace(" was given", " were given")
     m = re.search(r"'([^']*)'", msg)
     if not m or ("multiple values" not in msg and "unexpected keyword" not in msg):
         return kind
